@@ -6,8 +6,12 @@ CONSTANTS
   Cap = 1
   DropParentCloseW = FALSE
   FailAt = 0
+  HereAt = 0
+  HereUnits = 0
+  SigpipeMode = "ignored"
   CapReadMode = "concurrent"
   Capture = TRUE
+INVARIANT ShellAlive
 INVARIANT ExecFds
 INVARIANT ShellFdsRestored
 INVARIANT NoForeignEnds
